@@ -380,6 +380,13 @@ func (rt *runtime) claimTokens(kid string) []Tok {
 		{"scp=[read,write,api.read]+scope='x'", []any{"read", "write", "api.read"}, "x"},
 		{"scp=[x]+scope='read write api.read'", []any{"x"}, "read write api.read"},
 		{"scp=[]+scope='read write api.read'", []any{}, "read write api.read"},
+		// hierarchic strategy: exact names, raw character prefixes that do not end at a '.' boundary, the empty scope
+		{"scope='api.read billing'", absent, "api.read billing"},
+		{"scope='api.rea billing'", absent, "api.rea billing"},
+		{"scope='ap billing'", absent, "ap billing"},
+		{"scope='api.read bill'", absent, "api.read bill"},
+		{"scope=''", absent, ""},
+		{"scp=['']", []any{""}, absent},
 	}
 
 	for _, i := range isss {
